@@ -71,7 +71,9 @@ def stepThread (c : Cfg) (s : St) : Th → Option (St × Th × List Ev)
       -- duplicate path: TrackRegistration, return
       some ((track c s k tr now).1, .ingest k tr now cov probe live .done, [])
     | .afterExists false =>
-      some ((track c s k tr now).1, .ingest k tr now cov probe live .afterTrack, [])
+      -- TrackRegistration; if another worker tracked its copy in the meantime (the track only bumped the
+      -- counter) this message is a duplicate and the worker stops here
+      some ((track c s k tr now).1, .ingest k tr now cov probe live (if s.decoys.contains k then .done else .afterTrack), [])
     | .afterTrack =>
       if !cov then some (s, .ingest k tr now cov probe live .done, [])
       else if probe then some (s, .ingest k tr now cov probe live .probing, [])
